@@ -86,7 +86,18 @@ def check(scenario, obs):
 
 def run_one(ctx, scenario):
     obs = PF.run_scenario(scenario)
-    check(scenario, obs)
+    try:
+        check(scenario, obs)
+    except Violation as v:
+        # a healthy replay reported as timed out / dead may be an artefact of machine load (the scenario timeouts are
+        # deliberately short): confirm with a ten times longer timeout before calling it a violation
+        from props.C08 import timing_suspect
+        if v.clause not in ('continues', 'bounded-response', 'verdict') or not timing_suspect(scenario, obs):
+            raise
+        slow = dict(scenario, timeout=max(5.0, 10 * scenario['timeout']), hard_cap_s=240)
+        obs = PF.run_scenario(slow)
+        check(slow, obs)
+        ctx.count('timing-retry: passed with a longer timeout')
     bs = [scenario['script'][i] for i in scenario['ids']]
     consume = scenario.get('consume', 'full')
     pos = set()
